@@ -1382,6 +1382,13 @@ def _registry(ctx: Ctx, p) -> None:
 
     def _is_registered(n, fe) -> bool:
         """every value the callee expression can denote is a read of the registry or the batcher stored into it"""
+        if isinstance(fe, ast.Name):
+            # a value that reaches the call from before this activation (a `nonlocal` / shared variable written by an
+            # earlier call, possibly on another loop) is not this loop's registry entry
+            from ..dataflow import rdefs as _rdefs
+            ds_ = _rdefs(g).reaching(n, fe.id)
+            if ds_ is None or any(d_ is None for d_ in ds_):
+                return False
         if isinstance(fe, ast.Name) and fe.id in bvars:
             return True
         lfs = _leaves(g, n, fe)
